@@ -29,7 +29,7 @@ ASSUMPTIONS = ["the translation structure is rendered twice by the harness: C te
                "the base model alone (call_kernel/call_Fq) and its raw library are the reference (C01 covers them)"]
 REQUIRED_MONITORS = ["equals_base_at_translated", "Fq_equals_base_at_translated", "dispersity_is_weighted_mean_of_base",
                      "untouched_parameters_preserved", "invalid_placement_refused"]
-REQUIRED_BUCKETS = {"quick": ["tpl:boundary", "tpl:affine", "tpl:power", "tpl:pair", "tpl:ternary", "tpl:chain3", "place:default",
+REQUIRED_BUCKETS = {"quick": ["tpl:boundary", "tpl:affine", "tpl:power", "tpl:pair", "tpl:ternary", "tpl:chain3", "tpl:divide", "tpl:offset", "place:default",
                               "place:start", "place:after-untouched", "place:after-angle", "dim:1d", "dim:2d",
                               "pd:feeds-intermediate", "validity-boundary-crossed", "lane:asan", "new-parameters:untyped",
                               "new-parameters:untyped-and-no-volume-parameter-left", "same-name-second-definition", "new-parameter-keeps-base-name",
@@ -38,7 +38,20 @@ REQUIRED_BUCKETS["thorough"] = REQUIRED_BUCKETS["quick"]
 
 BASES = ["sphere", "cylinder", "ellipsoid", "core_shell_sphere", "hollow_cylinder", "barbell", "capped_cylinder",
          "parallelepiped", "pearl_necklace", "vesicle", "fractal", "lamellar"]
-TEMPLATES = ["affine", "power", "pair", "ternary", "chain3"]
+TEMPLATES = ["affine", "power", "pair", "ternary", "chain3", "divide", "offset"]
+
+
+def strip_outer(txt):
+    """(a + b) * (c + d) written without the redundant outer parentheses the renderer adds"""
+    if txt.startswith("(") and txt.endswith(")"):
+        depth = 0
+        for k_, ch in enumerate(txt):
+            depth += ch == "("
+            depth -= ch == ")"
+            if depth == 0 and k_ < len(txt) - 1:
+                return txt
+        return txt[1:-1]
+    return txt
 
 
 def worker_init(tier, seed):
@@ -56,7 +69,7 @@ def gen_cases(tier, seed):
                       "group": "b%d" % j, "lane": "plain"})
     for k in range(4 if tier == "quick" else 30):
         cases.append({"id": "asan/%04d" % k, "k": 5000 + k, "seed": seed, "base": ["cylinder", "barbell", "ellipsoid", "hollow_cylinder"][k % 4],
-                      "tpl": TEMPLATES[k % 5], "group": "a%d" % (k % 4), "lane": "asan", "cost": 4})
+                      "tpl": TEMPLATES[k % len(TEMPLATES)], "group": "a%d" % (k % 4), "lane": "asan", "cost": 4})
     return cases
 
 
@@ -112,6 +125,8 @@ def build_translation(info, tpl, rng, pars0, keep_name=False):
     names = [p.name for p in vol]
     if tpl in ("pair", "ternary", "power") and len(vol) < 2:
         tpl = "affine"
+    if tpl == "divide" and len(vol) < 1:
+        tpl = "affine"
     if tpl == "chain3" and len(vol) < 3:
         tpl = "pair" if len(vol) >= 2 else "affine"
     order = list(rng.permutation(len(vol)))
@@ -165,6 +180,21 @@ def build_translation(info, tpl, rng, pars0, keep_name=False):
         st = [(big.name, ("?", v("u_new"), v("w_new"), v("u_new"), v("w_new"))),
               (small.name, ("?", v("u_new"), v("w_new"), v("w_new"), v("u_new")))]
         repl, feeds = [a.name, b.name], []
+    elif tpl == "offset":
+        # a new parameter that is an offset around a fixed reference: it may be negative and says so in its limits
+        ref = va*float(rng.uniform(1.05, 1.4))
+        new = [["delta_new", "Ang", va - ref, [-0.9*ref, 0.9*ref], "volume", "offset from the reference size"]]
+        st = [(a.name, ("+", k_(ref), v("delta_new")))]
+        repl, feeds = [a.name], []
+    elif tpl == "divide":
+        # an intermediate that is a product of two groups, used once, as a divisor
+        W0 = float(rng.uniform(0.5, 2.0))*va
+        u, w = 0.6*va, 0.4*va
+        K2 = va*(u + w)*(1.0 + w/W0)
+        new = [["u_new", "Ang", u, [0, inf], "volume", "new u"], ["w_new", "Ang", w, [0, inf], "volume", "new w"]]
+        st = [("t_den", ("*", ("+", v("u_new"), v("w_new")), ("+", k_(1.0), ("/", v("w_new"), k_(W0))))),
+              (a.name, ("/", k_(K2), v("t_den")))]
+        repl, feeds = [a.name], ["u_new", "w_new"]
     else:  # chain3
         kap = float(rng.uniform(0.5, 2.0))
         # t1 = u*w ; t2 = sqrt(t1) ; a = t2 ; b = u + z ; c = kap*w/z*z0  (dimension handled by constants)
@@ -216,7 +246,7 @@ def run_case(case, rec):
     rec.bucket("tpl:" + tpl, "lane:" + case.get("lane", "plain"))
     if any(n[0] in repl for n in new):
         rec.bucket("new-parameter-keeps-base-name")
-    text = "\n".join("        %s = %s" % (lhs, C(ast)) for lhs, ast in st)
+    text = "\n".join("        %s = %s" % (lhs, strip_outer(C(ast)) if lhs.startswith("t_") else C(ast)) for lhs, ast in st)
     untouched = [p for p in bi.parameters.kernel_parameters if p.name not in repl]
     angles = [p.name for p in bi.parameters.orientation_parameters]
     place = ["default", "start", "after-untouched", "after-angle"][(k // 5) % 4]
@@ -259,7 +289,9 @@ def run_case(case, rec):
     same = all((p.name in newtab and newtab[p.name].limits == p.limits and newtab[p.name].type == p.type
                 and newtab[p.name].units == p.units and newtab[p.name].length == p.length) for p in untouched)
     rec.check("untouched_parameters_preserved", same and oldorder == neworder and all(r not in newtab or r in {n[0] for n in new} for r in repl)
-              and all(n[0] in newtab for n in new),
+              and all(n[0] in newtab for n in new)
+              and all(tuple(newtab[n[0]].limits) == tuple(float(x) for x in n[3]) and newtab[n[0]].default == n[2]
+                      and newtab[n[0]].type == n[4] for n in new if n[0] in newtab),
               {"base": base, "untouched": oldorder, "new_table": [p.name for p in info.parameters.kernel_parameters]})
     # new-parameter values
     newvals = {n[0]: float(n[2]*(rng.uniform(0.8, 1.25) if tpl != "boundary" else 1.0)) for n in new}
@@ -326,7 +358,7 @@ def run_case(case, rec):
         tpl2, new2, st2, repl2, feeds2 = build_translation(bi, tpl, rng2, pars0, keep_name=(k % 3 == 1))
         if tpl2 == tpl and [n[0] for n in new2] == [n[0] for n in new] and repl2 == repl:
             new2 = [n2[:4] + [n1[4]] + n2[5:] for n1, n2 in zip(new, new2)]
-            text2 = "\n".join("        %s = %s" % (lhs, C(ast)) for lhs, ast in st2)
+            text2 = "\n".join("        %s = %s" % (lhs, strip_outer(C(ast)) if lhs.startswith("t_") else C(ast)) for lhs, ast in st2)
             if text2 != text:
                 info2 = sascore.reparameterize(bi, new2, text2, insert_after=ia, name="rtm_rep_%04d" % k)
                 model2 = sascore.build_model(info2, platform="dll")
